@@ -142,10 +142,10 @@ Theorem replace_spec d old new_ start stop count ba s e : old <> [] -> count_ok 
 Proof.
   intros Hp Hc Hv. destruct (validate_slice_ok _ _ _ _ _ Hv) as (H0 & H1 & H2).
   pose proof (zlen_nonneg old) as Lo. assert (Lo1 : 0 < zlen old) by (destruct old; [congruence|unfold zlen; cbn [length]; lia]).
-  unfold ba_replace. destruct count as [[|c|c]|] eqn:Ecount; cbn [count_ok] in Hc; try lia.
+  unfold ba_replace. apply nonempty_zlen in Hp as Hz. rewrite Hz, Hv. cbn [bind].
+  destruct count as [[|c|c]|] eqn:Ecount; cbn [count_ok] in Hc; try lia.
   - (* count = 0 *) exists []. cbn. repeat split; auto; try lia; try (intros x []).
   - (* count = Some (pos c) *)
-    apply nonempty_zlen in Hp as Hz. rewrite Hz, Hv. cbn [bind].
     assert (Hv' : validate_slice d (Some s) (Some e) = Ok (s, e)).
     { unfold validate_slice. replace (s <? 0) with false by lia. replace (e <? 0) with false by lia.
       replace ((0 <=? s) && (s <=? e) && (e <=? zlen d)) with true by lia. reflexivity. }
@@ -173,7 +173,6 @@ Proof.
     rewrite Hr. cbn [bind]. replace (zlen (p0 :: rest) =? 0) with false by (rewrite zlen_cons; pose proof (zlen_nonneg rest); lia).
     f_equal. f_equal. cbn [concat]. rewrite Hcc. cbn [tl splice]. reflexivity.
   - (* count = None *)
-    apply nonempty_zlen in Hp as Hz. rewrite Hz, Hv. cbn [bind].
     assert (Hv' : validate_slice d (Some s) (Some e) = Ok (s, e)).
     { unfold validate_slice. replace (s <? 0) with false by lia. replace (e <? 0) with false by lia.
       replace ((0 <=? s) && (s <=? e) && (e <=? zlen d)) with true by lia. reflexivity. }
